@@ -42,7 +42,7 @@ TRUSTED_BASE = [
 ASSUMPTIONS = [
     "values are immutable in the model: in-place mutation through expression side effects (list.append, AttributeDict write-back) is outside it — probed end-to-end, recorded as an open finding",
     "user variables do not start with `_` (the expansion's hidden `_ref_…`/`_event_ref_…` variables live in the same context); parameter names are identifiers, never `$<digits>`",
-    "e2e fragment: callee bodies run synchronously to their end or to `match Never()`; the FlowStarted hand-shake compares call arguments by equality (C04 partial matching coincides with equality on the generated values); defaults are evaluated once per call in the empty context",
+    "e2e fragment: callee bodies run synchronously to their end or to `match Never()` (the event queue is abstracted; the FlowStarted / FlowFinished matches of a call go through the C04 matcher model, pattern evaluated at match time); defaults are evaluated once per call in the empty context",
     "modelled by hand: create_flow_instance, _start_flow, slide branches Assignment/Global/Return, _get_eval_context + `$var` lookup of eval_expression, FlowState.finished_event/_create_out_event, the expansion shape of `$x = await f(..)`",
 ]
 EXHAUSTIVE = {"quick": True, "thorough": True}
@@ -60,7 +60,13 @@ REPAIRED = tr.repaired()
 
 
 def translate():
-    return tr.run()
+    # the call hand-shakes of the mini interpreter go through the C04 matcher model: its generated constants
+    # (argument_filter, InternalEvents) must be current before the build
+    from ..translate import c04
+
+    info = tr.run()
+    info["c04_constants"] = c04.run()
+    return info
 
 
 # ----------------------------------------------------------------------------- expression / program AST helpers
@@ -273,9 +279,6 @@ def g_arg_expr(rng, scope_vars):
 
 
 def g_call(rng, flows_by_name, target, form, scope_vars, ret=None, mode=None):
-    # a global passed as an argument and re-assigned by the callee makes the caller's FlowStarted pattern (re-evaluated
-    # at match time, partial-match rules of C04) differ from the event: hand-shake quirk, kept out of the fragment
-    scope_vars = [x for x in scope_vars if x != "g"]
     params = flows_by_name[target]["params"]
     n = len(params)
     names = [p["name"] for p in params]
@@ -749,9 +752,9 @@ def spec_run(prog):
                         raise _NoExpectation("duplicate named argument")
                     nv[k] = spec_eval(e, env, genv, gdecl)
                 cenv = spec_bind(f["params"], pv, nv)
-                gused = {x: genv.get(x) for x in _vars(st["pos"] + [e for _, e in st["named"]]) if x in gdecl}
+                gused = {x: vj.enc(genv.get(x)) for x in _vars(st["pos"] + [e for _, e in st["named"]]) if x in gdecl}
                 res = run(f["body"], cenv, set(), f["name"])
-                if any(genv.get(x) != v for x, v in gused.items()):
+                if any(vj.enc(genv.get(x)) != v for x, v in gused.items()):  # type-sensitive: True -> 1 is a change
                     # the callee re-assigned a global that the call passes as an argument: the caller's FlowStarted
                     # pattern is re-evaluated with the new value and the caller never resumes — progress is not part of
                     # the statement (design_notes: hand-shake quirk), the model mirrors it
